@@ -122,16 +122,16 @@ Qed.
 (* ------------------------------------------------------------------ *)
 
 (* ---------- memory reads ---------- *)
-Lemma rd_in : forall j ph xs i, (i < length xs)%nat -> rd j ph xs i = Ok (nth i xs 0).
+Lemma rd_in : forall j ph xs i, (i < length xs)%nat -> rd j ph xs i = TmOk (nth i xs 0).
 Proof. intros j ph xs i H. unfold rd. replace (i <? length xs)%nat with true by lia. reflexivity. Qed.
 
-Lemma rd_junk : forall j ph xs i, (length xs <= i)%nat -> (i < ph)%nat -> rd j ph xs i = Ok j.
+Lemma rd_junk : forall j ph xs i, (length xs <= i)%nat -> (i < ph)%nat -> rd j ph xs i = TmOk j.
 Proof.
   intros j ph xs i H1 H2. unfold rd.
   replace (i <? length xs)%nat with false by lia. replace (i <? ph)%nat with true by lia. reflexivity.
 Qed.
 
-Lemma rd_oob : forall j ph xs i, (length xs <= i)%nat -> (ph <= i)%nat -> rd j ph xs i = Fault OOB_read.
+Lemma rd_oob : forall j ph xs i, (length xs <= i)%nat -> (ph <= i)%nat -> rd j ph xs i = TmFault Tm_OOB_read.
 Proof.
   intros j ph xs i H1 H2. unfold rd.
   replace (i <? length xs)%nat with false by lia. replace (i <? ph)%nat with false by lia. reflexivity.
@@ -141,17 +141,17 @@ Lemma mid_bounds : forall low high : nat, (low < high)%nat ->
   (low < (low + high + 1) / 2 <= high)%nat.
 Proof. intros. lia. Qed.
 
-(* ---------- the loop terminates without fault when x[length] is inside the heap object ---------- *)
+(* ---------- the loop terminates without tm_fault when x[length] is inside the heap object ---------- *)
 Lemma search_loop_ok : forall fuel j ph xs x0 low high,
   (low <= high <= length xs)%nat -> (length xs < ph)%nat -> (high - low < fuel)%nat ->
-  exists r, search_loop fuel j ph xs x0 low high = Ok r /\ (low <= r <= high)%nat.
+  exists r, search_loop fuel j ph xs x0 low high = TmOk r /\ (low <= r <= high)%nat.
 Proof.
   induction fuel as [|f IH]; intros j ph xs x0 low high Hlh Hph Hf; [lia|].
   cbn [search_loop].
   destruct (low <? high)%nat eqn:Elt; [|exists low; split; [reflexivity|lia]].
   pose proof (mid_bounds low high ltac:(lia)) as Hm.
   set (mid := ((low + high + 1) / 2)%nat) in *.
-  assert (Hrd : exists xm, rd j ph xs mid = Ok xm).
+  assert (Hrd : exists xm, rd j ph xs mid = TmOk xm).
   { destruct (Nat.lt_ge_cases mid (length xs)).
     - eexists; apply rd_in; assumption.
     - eexists; apply rd_junk; lia. }
@@ -168,7 +168,7 @@ Qed.
 Lemma search_loop_junk : forall fuel j j' ph xs x0 low high,
   (low <= high <= length xs)%nat -> (length xs < ph)%nat -> (high - low < fuel)%nat ->
   search_loop fuel j ph xs x0 low high = search_loop fuel j' ph xs x0 low high \/
-  exists a b, search_loop fuel j ph xs x0 low high = Ok a /\ search_loop fuel j' ph xs x0 low high = Ok b /\
+  exists a b, search_loop fuel j ph xs x0 low high = TmOk a /\ search_loop fuel j' ph xs x0 low high = TmOk b /\
               (length xs - 1 <= a)%nat /\ (length xs - 1 <= b)%nat.
 Proof.
   induction fuel as [|f IH]; intros j j' ph xs x0 low high Hlh Hph Hf; [lia|].
@@ -188,10 +188,10 @@ Proof.
     assert (Hhigh : high = length xs) by lia.
     right.
     assert (Hany : forall jj, exists a, (match rd jj ph xs mid with
-                     | Fault e => Fault e
-                     | Ok xm => if x0 =? xm then Ok mid
+                     | TmFault e => TmFault e
+                     | TmOk xm => if x0 =? xm then TmOk mid
                                 else if x0 <? xm then search_loop f jj ph xs x0 low (mid - 1)%nat
-                                else search_loop f jj ph xs x0 mid high end) = Ok a /\ (length xs - 1 <= a)%nat).
+                                else search_loop f jj ph xs x0 mid high end) = TmOk a /\ (length xs - 1 <= a)%nat).
     { intros jj. rewrite (rd_junk jj ph xs mid ltac:(lia) ltac:(lia)).
       destruct (x0 =? jj); [exists mid; split; [reflexivity|lia]|].
       destruct (x0 <? jj).
@@ -217,7 +217,7 @@ Qed.
 
 Theorem search_no_oob_lemma : forall j ph xs x0,
   (length xs < ph)%nat ->
-  exists c, search_old j ph xs x0 = Ok c /\ (c <= length xs)%nat /\ (2 <= length xs -> c + 2 <= length xs)%nat.
+  exists c, search_old j ph xs x0 = TmOk c /\ (c <= length xs)%nat /\ (2 <= length xs -> c + 2 <= length xs)%nat.
 Proof.
   intros j ph xs x0 Hph. unfold search_old.
   destruct (search_loop_ok (S (length xs)) j ph xs x0 0%nat (length xs) ltac:(lia) Hph ltac:(lia)) as [r [-> Hb]].
@@ -239,7 +239,7 @@ Lemma search_loop_spec : forall fuel j ph xs x0 low high,
   (low <= high <= length xs)%nat -> ((high < length xs)%nat \/ (length xs < ph)%nat) -> (high - low < fuel)%nat ->
   (forall i, (0 < i <= low)%nat -> (i < length xs)%nat -> nth i xs 0 <= x0) ->
   (forall i, (high < i < length xs)%nat -> x0 < nth i xs 0) ->
-  exists r, search_loop fuel j ph xs x0 low high = Ok r /\ (low <= r <= high)%nat /\
+  exists r, search_loop fuel j ph xs x0 low high = TmOk r /\ (low <= r <= high)%nat /\
     (forall i, (0 < i <= r)%nat -> (i < length xs)%nat -> nth i xs 0 <= x0) /\
     (forall i, (r < i < length xs)%nat -> x0 < nth i xs 0).
 Proof.
@@ -289,7 +289,7 @@ Qed.
 
 Lemma search_seg_ok : forall j ph xs x0,
   sorted_lt xs -> (2 <= length xs)%nat -> (length xs < ph)%nat ->
-  exists c, search_old j ph xs x0 = Ok c /\ seg_ok xs x0 c.
+  exists c, search_old j ph xs x0 = TmOk c /\ seg_ok xs x0 c.
 Proof.
   intros j ph xs x0 Hs Hlen Hph. unfold search_old.
   destruct (search_loop_spec (S (length xs)) j ph xs x0 0%nat (length xs) Hs ltac:(lia) (or_intror Hph) ltac:(lia))
@@ -317,7 +317,7 @@ Qed.
 
 Lemma search_eq_seg : forall j ph xs x0 c,
   sorted_lt xs -> (2 <= length xs)%nat -> (length xs < ph)%nat -> seg_ok xs x0 c ->
-  search_old j ph xs x0 = Ok c.
+  search_old j ph xs x0 = TmOk c.
 Proof.
   intros j ph xs x0 c Hs Hlen Hph Hc.
   destruct (search_seg_ok j ph xs x0 Hs Hlen Hph) as [c' [-> Hc']].
@@ -328,7 +328,7 @@ Qed.
    whatever the physical size and the junk *)
 Lemma search_fixed_seg_ok : forall xs x0,
   sorted_lt xs -> (2 <= length xs)%nat ->
-  exists c, search xs x0 = Ok c /\ seg_ok xs x0 c.
+  exists c, search xs x0 = TmOk c /\ seg_ok xs x0 c.
 Proof.
   intros xs x0 Hs Hlen. unfold search.
   destruct (search_loop_spec (length xs) 0 0%nat xs x0 0%nat (length xs - 1)%nat Hs ltac:(lia) ltac:(left; lia) ltac:(lia))
@@ -382,7 +382,7 @@ Qed.
 Lemma search_loop_oob : forall fuel j ph xs x0 low,
   sorted_lt xs -> (ph <= length xs)%nat -> (low < length xs)%nat -> (length xs - low < fuel)%nat ->
   nth (length xs - 1) xs 0 < x0 ->
-  search_loop fuel j ph xs x0 low (length xs) = Fault OOB_read.
+  search_loop fuel j ph xs x0 low (length xs) = TmFault Tm_OOB_read.
 Proof.
   induction fuel as [|f IH]; intros j ph xs x0 low Hs Hph Hlow Hf Hq; [lia|].
   cbn [search_loop]. replace (low <? length xs)%nat with true by lia.
@@ -402,7 +402,7 @@ Lemma search_loop_inb : forall fuel j ph xs x0 low high,
   sorted_lt xs -> (low <= high <= length xs)%nat -> (high - low < fuel)%nat ->
   (high = length xs -> low + 1 < length xs)%nat ->
   x0 <= nth (length xs - 1) xs 0 ->
-  exists r, search_loop fuel j ph xs x0 low high = Ok r.
+  exists r, search_loop fuel j ph xs x0 low high = TmOk r.
 Proof.
   induction fuel as [|f IH]; intros j ph xs x0 low high Hs Hlh Hf Hinv Hq; [lia|].
   cbn [search_loop].
@@ -422,7 +422,7 @@ Qed.
 
 Theorem search_oob_iff_lemma : forall j ph xs x0,
   sorted_lt xs -> (2 <= length xs)%nat -> (ph <= length xs)%nat ->
-  (search_old j ph xs x0 = Fault OOB_read <-> nth (length xs - 1) xs 0 < x0).
+  (search_old j ph xs x0 = TmFault Tm_OOB_read <-> nth (length xs - 1) xs 0 < x0).
 Proof.
   intros j ph xs x0 Hs Hl Hph. unfold search_old. split.
   - intros H. destruct (Z_lt_ge_dec (nth (length xs - 1) xs 0) x0) as [Hq|Hq]; [assumption|exfalso].
@@ -446,7 +446,7 @@ Definition ival (xs ys : list Z) (c : nat) (x0 : Z) : Z :=
   nth c ys 0 + rdiv ((x0 - nth c xs 0) * (nth (S c) ys 0 - nth c ys 0)) (nth (S c) xs 0 - nth c xs 0).
 
 Lemma interp_at_inv : forall xs ys c x0 v,
-  interp_at_old xs ys c x0 = Ok v ->
+  interp_at_old xs ys c x0 = TmOk v ->
   nth (S c) xs 0 - nth c xs 0 <> 0 /\
   v = nth c ys 0 + interp_k (x0 - nth c xs 0) (nth (S c) xs 0 - nth c xs 0) (nth (S c) ys 0 - nth c ys 0).
 Proof.
@@ -458,7 +458,7 @@ Proof.
 Qed.
 
 Lemma interp_at_inv_pos : forall xs ys c x0 v,
-  interp_at_old xs ys c x0 = Ok v -> 0 < nth (S c) xs 0 - nth c xs 0 -> v = ival xs ys c x0.
+  interp_at_old xs ys c x0 = TmOk v -> 0 < nth (S c) xs 0 - nth c xs 0 -> v = ival xs ys c x0.
 Proof.
   intros xs ys c x0 v H Hds. apply interp_at_inv in H. destruct H as [_ ->].
   unfold ival. rewrite interp_k_eq by assumption. reflexivity.
@@ -469,7 +469,7 @@ Lemma interp_at_ok : forall xs ys c x0,
   in64 (x0 - nth c xs 0) = true -> in64 (nth (S c) xs 0 - nth c xs 0) = true ->
   in64 (nth (S c) ys 0 - nth c ys 0) = true ->
   in64 (ival xs ys c x0 - nth c ys 0) = true -> in64 (ival xs ys c x0) = true ->
-  interp_at_old xs ys c x0 = Ok (ival xs ys c x0).
+  interp_at_old xs ys c x0 = TmOk (ival xs ys c x0).
 Proof.
   intros xs ys c x0 Hds H1 H2 H3 H4 H5. unfold interp_at_old.
   rewrite H1, H2, H3. cbn [andb negb].
@@ -483,7 +483,7 @@ Qed.
 
 (* within half a unit of the exact rational value, whatever the segment *)
 Lemma interp_at_half : forall xs ys c x0 v,
-  interp_at_old xs ys c x0 = Ok v ->
+  interp_at_old xs ys c x0 = TmOk v ->
   (Qabs (inject_Z v - exact_at xs ys c x0) <= 1 # 2)%Q.
 Proof.
   intros xs ys c x0 v H. apply interp_at_inv in H. destruct H as [_ ->].
@@ -593,7 +593,7 @@ Definition gen_ok (ph : nat) (xs ys : list Z) : Prop :=
   sorted_lt xs /\ sorted_le ys /\ length ys = length xs /\ (2 <= length xs)%nat /\ (length xs < ph)%nat.
 
 Theorem interp_monotone : forall j ph xs ys q1 q2 v1 v2, gen_ok ph xs ys ->
-  interp_old j ph xs ys q1 = Ok v1 -> interp_old j ph xs ys q2 = Ok v2 -> q1 <= q2 -> v1 <= v2.
+  interp_old j ph xs ys q1 = TmOk v1 -> interp_old j ph xs ys q2 = TmOk v2 -> q1 <= q2 -> v1 <= v2.
 Proof.
   intros j ph xs ys q1 q2 v1 v2 [Hsx [Hsy [Hly [Hlen2 Hph]]]] H1 H2 Hq.
   destruct (interp_has_seg j ph xs ys q1 Hsx Hlen2 Hph) as [c1 [Hc1 E1]].
@@ -622,7 +622,7 @@ Lemma interp_at_inside_ok : forall xs ys q c,
   sorted_lt xs -> sorted_le ys -> length ys = length xs ->
   all_in (2 ^ 62 - 1) xs -> all_in (2 ^ 62 - 1) ys ->
   seg_ok xs q c -> nth c xs 0 <= q <= nth (S c) xs 0 ->
-  interp_at_old xs ys c q = Ok (ival xs ys c q).
+  interp_at_old xs ys c q = TmOk (ival xs ys c q).
 Proof.
   intros xs ys q c Hsx Hsy Hly Hbx Hby Hc Hq. pose proof Hc as [C1 _].
   pose proof (seg_ds_pos xs q c Hsx Hc). pose proof (seg_dt_nonneg xs ys q c Hsy Hly Hc).
@@ -635,7 +635,7 @@ Qed.
 
 Theorem interp_anchor : forall j ph xs ys i, gen_ok ph xs ys ->
   all_in (2 ^ 62 - 1) xs -> all_in (2 ^ 62 - 1) ys ->
-  (i < length xs)%nat -> interp_old j ph xs ys (nth i xs 0) = Ok (nth i ys 0).
+  (i < length xs)%nat -> interp_old j ph xs ys (nth i xs 0) = TmOk (nth i ys 0).
 Proof.
   intros j ph xs ys i [Hsx [Hsy [Hly [Hlen2 Hph]]]] Hbx Hby Hi.
   destruct (Nat.lt_ge_cases (i + 1) (length xs)) as [Hin|Hlast].
@@ -657,7 +657,7 @@ Qed.
 Theorem interp_linear_lemma : forall j ph xs ys i q, gen_ok ph xs ys ->
   all_in (2 ^ 62 - 1) xs -> all_in (2 ^ 62 - 1) ys ->
   (i + 1 < length xs)%nat -> nth i xs 0 <= q <= nth (S i) xs 0 ->
-  interp_old j ph xs ys q = Ok (ival xs ys i q).
+  interp_old j ph xs ys q = TmOk (ival xs ys i q).
 Proof.
   intros j ph xs ys i q Hg Hbx Hby Hi Hq. pose proof Hg as [Hsx [Hsy [Hly [Hlen2 Hph]]]].
   destruct (Z.eq_dec q (nth (S i) xs 0)) as [->|Hne].
@@ -698,7 +698,7 @@ Qed.
 Theorem interp_inverse : forall j j' ph xs ys q t q',
   sorted_lt xs -> (2 <= length xs)%nat -> (length xs < ph)%nat -> length ys = length xs ->
   slope_ge1 xs ys ->
-  interp_old j ph xs ys q = Ok t -> interp_old j' ph ys xs t = Ok q' -> -1 <= q' - q <= 1.
+  interp_old j ph xs ys q = TmOk t -> interp_old j' ph ys xs t = TmOk q' -> -1 <= q' - q <= 1.
 Proof.
   intros j j' ph xs ys q t q' Hsx Hlen2 Hph Hly Hslope H1 H2.
   pose proof (slope_sorted xs ys Hsx Hly Hslope) as Hsy. pose proof (sorted_lt_le _ Hsy) as Hsy'.
@@ -820,7 +820,7 @@ Lemma t2s_single_old : forall j t q s0 u0, entries t = [(s0, u0)] ->
   if rate_positive (rate t) then qres_of (single_time_to_id (rate t) s0 u0 q) else QErr TMAP_ERROR_UNAVAILABLE.
 Proof. intros j t q s0 u0 E. unfold tmap_timestamp_to_sample_id_old. rewrite E. reflexivity. Qed.
 
-Lemma qres_of_val : forall r v, qres_of r = QVal v -> r = Ok v.
+Lemma qres_of_val : forall r v, qres_of r = QVal v -> r = TmOk v.
 Proof. intros [a|f] v H; cbn in H; inversion H; reflexivity. Qed.
 
 Lemma entries_cases : forall t,
@@ -830,7 +830,7 @@ Proof.
 Qed.
 
 Lemma single_id_to_time_inv : forall r s0 u0 q v, rate_positive r = true ->
-  single_id_to_time r s0 u0 q = Ok v -> v = u0 + Z.quot ((q - s0) * Zpos (Qden r) * 2 ^ 30) (Qnum r).
+  single_id_to_time r s0 u0 q = TmOk v -> v = u0 + Z.quot ((q - s0) * Zpos (Qden r) * 2 ^ 30) (Qnum r).
 Proof.
   intros r s0 u0 q v Hr. unfold single_id_to_time.
   destruct (negb _); [discriminate|]. destruct (negb _); [discriminate|].
@@ -838,7 +838,7 @@ Proof.
 Qed.
 
 Lemma single_time_to_id_inv : forall r s0 u0 q v,
-  single_time_to_id r s0 u0 q = Ok v -> v = s0 + Z.quot ((q - u0) * Qnum r) (2 ^ 30 * Zpos (Qden r)).
+  single_time_to_id r s0 u0 q = TmOk v -> v = s0 + Z.quot ((q - u0) * Qnum r) (2 ^ 30 * Zpos (Qden r)).
 Proof.
   intros r s0 u0 q v. unfold single_time_to_id.
   destruct (negb _); [discriminate|]. destruct (negb _); [discriminate|].
@@ -860,7 +860,7 @@ Proof.
     split; reflexivity.
 Qed.
 
-Lemma interp_not_oob : forall j ph xs ys q, (length xs < ph)%nat -> interp_old j ph xs ys q <> Fault OOB_read.
+Lemma interp_not_oob : forall j ph xs ys q, (length xs < ph)%nat -> interp_old j ph xs ys q <> TmFault Tm_OOB_read.
 Proof.
   intros j ph xs ys q Hph. unfold interp_old.
   destruct (search_no_oob_lemma j ph xs q Hph) as [c [-> _]].
@@ -869,8 +869,8 @@ Proof.
 Qed.
 
 Theorem tmap_old_no_oob : forall j t q, (length (entries t) < phys t)%nat ->
-  tmap_sample_id_to_timestamp_old j t q <> QFault OOB_read /\
-  tmap_timestamp_to_sample_id_old j t q <> QFault OOB_read.
+  tmap_sample_id_to_timestamp_old j t q <> QFault Tm_OOB_read /\
+  tmap_timestamp_to_sample_id_old j t q <> QFault Tm_OOB_read.
 Proof.
   intros j t q Hph.
   destruct (entries_cases t) as [E|[[s0 [u0 E]]|E]].
@@ -955,7 +955,7 @@ Qed.
 (* the over-read, exact condition *)
 Theorem tmap_old_oob_iff : forall j t q, sorted_lt (ids t) -> (2 <= length (entries t))%nat ->
   (phys t <= length (entries t))%nat ->
-  (tmap_sample_id_to_timestamp_old j t q = QFault OOB_read <-> nth (length (entries t) - 1) (ids t) 0 < q).
+  (tmap_sample_id_to_timestamp_old j t q = QFault Tm_OOB_read <-> nth (length (entries t) - 1) (ids t) 0 < q).
 Proof.
   intros j t q Hs Hl Hph. rewrite s2t_multi_old by assumption.
   pose proof (search_oob_iff_lemma j (phys t) (ids t) q Hs ltac:(rewrite ids_length; assumption) ltac:(rewrite ids_length; assumption)) as H.
@@ -1431,8 +1431,8 @@ Theorem tmap_old_oob_refuted :
     t = tmap_add_all (tmap_alloc (1000 # 1)) full_adds /\
     sorted_lt (ids t) /\ sorted_lt (times t) /\
     length (entries t) = N.to_nat TMAP_ENTRIES_ALLOC_INIT /\
-    forall junk, tmap_sample_id_to_timestamp_old junk t q = QFault OOB_read /\
-                 tmap_timestamp_to_sample_id_old junk t (2 ^ 58 + 1000 * 2 ^ 30) = QFault OOB_read.
+    forall junk, tmap_sample_id_to_timestamp_old junk t q = QFault Tm_OOB_read /\
+                 tmap_timestamp_to_sample_id_old junk t (2 ^ 58 + 1000 * 2 ^ 30) = QFault Tm_OOB_read.
 Proof.
   exists full_map, 999001. split; [reflexivity|].
   destruct full_map_facts as [F1 [F2 [F3 F4]]].
@@ -1443,7 +1443,7 @@ Proof.
   - apply tmap_old_oob_iff; [exact S1|rewrite F1; vm_compute; lia|rewrite F1, F2; lia|].
     apply Z.ltb_lt. vm_compute. reflexivity.
   - rewrite t2s_multi_old by (rewrite F1; vm_compute; lia).
-    assert (H : search_old junk (phys full_map) (times full_map) (2 ^ 58 + 1000 * 2 ^ 30) = Fault OOB_read).
+    assert (H : search_old junk (phys full_map) (times full_map) (2 ^ 58 + 1000 * 2 ^ 30) = TmFault Tm_OOB_read).
     { apply search_oob_iff_lemma; [exact S2|rewrite times_length, F1; vm_compute; lia|rewrite times_length, F1, F2; lia|].
       apply Z.ltb_lt. vm_compute. reflexivity. }
     unfold interp_old. rewrite H. reflexivity.
@@ -1458,7 +1458,7 @@ Theorem tmap_old_equal_times_refuted :
     sorted_lt (ids t) /\ sorted_le (times t) /\ (length (entries t) < phys t)%nat /\
     In (s, u) (entries t) /\
     tmap_sample_id_to_timestamp_old 0 t s = QVal u /\
-    tmap_timestamp_to_sample_id_old 0 t u = QFault FP_invalid.
+    tmap_timestamp_to_sample_id_old 0 t u = QFault Tm_FP_invalid.
 Proof.
   exists eqt_map, 0, (2 ^ 40).
   split; [apply incr_sorted_lt, incrb_incr; vm_compute; reflexivity|].
@@ -1475,7 +1475,7 @@ Qed.
 (* ====================================================================================== *)
 Lemma search_loop_total : forall fuel j ph xs x0 low high,
   (low <= high < length xs)%nat -> (high - low < fuel)%nat ->
-  exists r, search_loop fuel j ph xs x0 low high = Ok r /\ (low <= r <= high)%nat.
+  exists r, search_loop fuel j ph xs x0 low high = TmOk r /\ (low <= r <= high)%nat.
 Proof.
   induction fuel as [|f IH]; intros j ph xs x0 low high Hlh Hf; [lia|].
   cbn [search_loop].
@@ -1494,7 +1494,7 @@ Qed.
 (* the bisection of the current code never reads at or beyond length and always terminates:
    no sortedness, no capacity hypothesis *)
 Theorem search_total : forall xs x0, (1 <= length xs)%nat ->
-  exists c, search xs x0 = Ok c /\ (c < length xs)%nat /\ (2 <= length xs -> c + 2 <= length xs)%nat.
+  exists c, search xs x0 = TmOk c /\ (c < length xs)%nat /\ (2 <= length xs -> c + 2 <= length xs)%nat.
 Proof.
   intros xs x0 Hl. unfold search.
   destruct (search_loop_total (length xs) 0 0%nat xs x0 0%nat (length xs - 1)%nat ltac:(lia) ltac:(lia)) as [r [-> Hb]].
@@ -1502,7 +1502,7 @@ Proof.
   destruct (length xs - 1 <=? r)%nat eqn:E; lia.
 Qed.
 
-Lemma interp_fault : forall xs ys q f, (1 <= length xs)%nat -> interp xs ys q = Fault f -> f = Int_overflow.
+Lemma interp_fault : forall xs ys q f, (1 <= length xs)%nat -> interp xs ys q = TmFault f -> f = Tm_Int_overflow.
 Proof.
   intros xs ys q f Hl. unfold interp.
   destruct (search_total xs q Hl) as [c [-> _]]. unfold interp_at.
@@ -1512,8 +1512,8 @@ Proof.
 Qed.
 
 Lemma single_fault : forall r s0 u0 q f,
-  (single_id_to_time r s0 u0 q = Fault f -> f = Int_overflow) /\
-  (single_time_to_id r s0 u0 q = Fault f -> f = Int_overflow).
+  (single_id_to_time r s0 u0 q = TmFault f -> f = Tm_Int_overflow) /\
+  (single_time_to_id r s0 u0 q = TmFault f -> f = Tm_Int_overflow).
 Proof.
   intros r s0 u0 q f. unfold single_id_to_time, single_time_to_id. split.
   - destruct (negb _); [intros H; inversion H; reflexivity|].
@@ -1522,10 +1522,10 @@ Proof.
     destruct (negb _); [intros H; inversion H; reflexivity|discriminate].
 Qed.
 
-(* every map, every query, sorted or not, equal times or not: the only fault left is int64
+(* every map, every query, sorted or not, equal times or not: the only tm_fault left is int64
    overflow (undefined behaviour of the C for astronomically distant queries) *)
 Theorem tmap_total : forall t q f,
-  tmap_sample_id_to_timestamp t q = QFault f \/ tmap_timestamp_to_sample_id t q = QFault f -> f = Int_overflow.
+  tmap_sample_id_to_timestamp t q = QFault f \/ tmap_timestamp_to_sample_id t q = QFault f -> f = Tm_Int_overflow.
 Proof.
   intros t q f H.
   pose proof (ids_length t) as L1. pose proof (times_length t) as L2.
@@ -1638,7 +1638,7 @@ Proof.
 Qed.
 
 (* concrete values of the current code: the example map, the map at capacity (beyond the last
-   anchor: no fault any more), the map with two equal UTC times (the anchor id, no fault) *)
+   anchor: no tm_fault any more), the map with two equal UTC times (the anchor id, no tm_fault) *)
 Lemma ex_map_values :
   tmap_sample_id_to_timestamp ex_map 500 = QVal (2 ^ 58 + 2 ^ 29) /\
   tmap_sample_id_to_timestamp ex_map 1000 = QVal (2 ^ 58 + 2 ^ 30) /\
@@ -1658,7 +1658,7 @@ Proof.
   - exact (tmap_eq_old_t2s j t q Hs Hph).
 Qed.
 
-(* the map holding exactly ENTRIES_ALLOC_INIT entries, queried beyond its last anchor: no fault *)
+(* the map holding exactly ENTRIES_ALLOC_INIT entries, queried beyond its last anchor: no tm_fault *)
 Lemma full_map_values :
   exists t : tmap,
     t = tmap_add_all (tmap_alloc (1000 # 1)) full_adds /\
